@@ -139,7 +139,7 @@ inline bool run_grid(System &S, GridStats &st, std::string *honest_out = 0) {
 			if (S.after_knob) S.after_knob();
 			st.mutants++; st.knobmut++;
 			if (r == 0) st.rejected++; else if (r == 2) st.thrown++;
-			else if (m.name == "plusp") { st.tolerated_acc++; printf("OBS %s.pub.%s.plusp accepted: the public input is reduced modulo p, not range-checked (same element; not counted as a change)\n", S.name.c_str(), k.name.c_str()); }
+			else if (m.name == "plusp" || (k.cls == 'm' && m.name == "plusq")) { st.tolerated_acc++; printf("OBS %s.pub.%s.plusp accepted: the public input is reduced modulo p, not range-checked (same element; not counted as a change)\n", S.name.c_str(), k.name.c_str()); }
 			else { st.fails++; propfail(S.name + ".pub." + strip_digits(k.name) + "." + m.name, "verifier accepted the unchanged transcript although public input " + k.name + " was changed from " + hx(keep) + " to " + hx(m.val)); }
 		}
 	}
